@@ -3,6 +3,7 @@ package v2
 import (
 	"fmt"
 
+	bc "github.com/tendermint/tendermint/blockchain"
 	"github.com/tendermint/tendermint/state"
 	"github.com/tendermint/tendermint/types"
 )
@@ -44,7 +45,9 @@ func (pc *pContext) setState(state state.State) {
 }
 
 func (pc pContext) verifyCommit(chainID string, blockID types.BlockID, height int64, commit *types.Commit) error {
-	return pc.state.Validators.VerifyCommitLight(chainID, blockID, height, commit)
+	// the commit is stored as the seen commit of the block (saveBlock), so all of
+	// its signatures are verified, not just +2/3 of them.
+	return bc.VerifySeenCommit(chainID, pc.state.Validators, blockID, height, commit)
 }
 
 func (pc *pContext) saveBlock(block *types.Block, blockParts *types.PartSet, seenCommit *types.Commit) {
